@@ -359,7 +359,93 @@ class Inliner:
             out.extend(self._stmt(s, owner, depth, stack))
         return out
 
+    def _fuse_generator(self, s, owner, depth, stack):
+        """`for x in helper(args): BODY` with a new generator helper  ==  the helper's body with every `yield E` replaced by
+        `x = E; BODY` (the consumer runs exactly where the producer yields); `yield from helper(args)`  ==  the helper's body.
+        Declined when BODY leaves the loop early (break / continue / return), when the helper returns, or uses yield as an
+        expression: those need the generator protocol."""
+        if isinstance(s, ast.For) and isinstance(s.iter, ast.Call) and not s.orelse:
+            call, target, consumer = s.iter, s.target, s.body
+        elif isinstance(s, ast.Expr) and isinstance(s.value, ast.YieldFrom) and isinstance(s.value.value, ast.Call):
+            call, target, consumer = s.value.value, None, None
+        else:
+            return None
+        r = self.resolve(call, owner)
+        if not r:
+            return None
+        helper, is_m, recv = r
+        if helper.qual in stack or depth <= 0:
+            return None
+        hnode = self.inline_function(helper, depth - 1, stack)
+        if not _simple_sig(hnode):
+            return None
+        ys = [n for n in _walk_local(hnode) if isinstance(n, (ast.Yield, ast.YieldFrom))]
+        if not ys or any(isinstance(n, ast.YieldFrom) for n in ys) or any(isinstance(n, ast.Return) for n in _walk_local(hnode)):
+            return None
+        stmt_yields = {id(n.value) for n in _walk_local(hnode) if isinstance(n, ast.Expr) and isinstance(n.value, ast.Yield)}
+        if any(id(y) not in stmt_yields for y in ys):
+            return None
+        if consumer is not None:
+            def leaves_loop(stmts, in_inner):
+                for x in stmts:
+                    if isinstance(x, ast.Return):
+                        return True
+                    if isinstance(x, (ast.Break, ast.Continue)) and not in_inner:
+                        return True
+                    if isinstance(x, (ast.FunctionDef, ast.ClassDef, ast.Lambda)):
+                        continue
+                    inner = in_inner or isinstance(x, (ast.For, ast.While))
+                    for fld in ("body", "orelse", "finalbody"):
+                        b_ = getattr(x, fld, None)
+                        if isinstance(b_, list) and b_ and isinstance(b_[0], ast.stmt) and leaves_loop(b_, inner if fld == "body" else in_inner):
+                            return True
+                    if isinstance(x, ast.Try) and any(leaves_loop(h.body, in_inner) for h in x.handlers):
+                        return True
+                return False
+            if leaves_loop(consumer, False):
+                return None
+        b = _bind(hnode, call, is_m, recv)
+        if b is None:
+            return None
+        b = {k_: self._expr(copy.deepcopy(v), owner, depth, stack) for k_, v in b.items()}
+        prelude, body, k = _prepare(hnode, b)
+
+        def repl(stmts):
+            out = []
+            for x in stmts:
+                if isinstance(x, ast.Expr) and isinstance(x.value, ast.Yield):
+                    if consumer is None:
+                        out.append(x)
+                    else:
+                        val = x.value.value if x.value.value is not None else ast.Constant(value=None)
+                        out.append(ast.copy_location(ast.Assign(targets=[copy.deepcopy(target)], value=val, lineno=0, col_offset=0), x))
+                        out.extend(copy.deepcopy(consumer))
+                    continue
+                if isinstance(x, (ast.FunctionDef, ast.ClassDef)):
+                    out.append(x)
+                    continue
+                x2 = copy.copy(x)
+                for fld in ("body", "orelse", "finalbody"):
+                    b_ = getattr(x, fld, None)
+                    if isinstance(b_, list) and b_ and isinstance(b_[0], ast.stmt):
+                        setattr(x2, fld, repl(b_))
+                if isinstance(x, ast.Try):
+                    hs = []
+                    for h in x.handlers:
+                        h2 = copy.copy(h)
+                        h2.body = repl(h.body)
+                        hs.append(h2)
+                    x2.handlers = hs
+                out.append(x2)
+            return out
+        fused = [ast.copy_location(x, s) for x in prelude] + repl(body)
+        self.used.add(helper.qual)
+        return self._block(fused, owner, depth, stack)
+
     def _stmt(self, s, owner, depth, stack):
+        fused = self._fuse_generator(s, owner, depth, stack)
+        if fused is not None:
+            return fused
         # statement-form inlining: the call is the whole value
         val = None
         if isinstance(s, (ast.Assign, ast.AnnAssign, ast.AugAssign, ast.Return, ast.Expr)):
